@@ -34,6 +34,13 @@ async def _start_port(*a, **k):
     return 4242
 
 
+async def _start_slow(*a, **k):
+    import asyncio
+
+    await asyncio.sleep(1.0)
+    return 4243
+
+
 def recipes() -> dict:
     from aioesphomeapi import model as M
 
@@ -95,7 +102,7 @@ def recipes() -> dict:
         "subscribe_service_calls": lambda c, v: c.subscribe_service_calls(_noop),
         "subscribe_states": lambda c, v: c.subscribe_states(_noop),
         "subscribe_voice_assistant": lambda c, v: c.subscribe_voice_assistant(
-            handle_start=_start_port, handle_stop=_anoop, handle_audio=_anoop if v % 2 else None,
+            handle_start=_start_slow if v % 4 >= 2 else _start_port, handle_stop=_anoop, handle_audio=_anoop if v % 2 else None,
             handle_announcement_finished=_anoop if v % 3 == 0 else None),
         "switch_command": lambda c, v: c.switch_command(1, bool(v % 2)),
         "text_command": lambda c, v: c.text_command(1, "hello"),
